@@ -1,7 +1,7 @@
 (* Properties/C05.v -- C05: texture depends on the strain path, not on the strain rate *)
 From Coq Require Import Reals ZArith List.
 From Coquelicot Require Import Hierarchy Derive.
-From PV Require Import Num NumR Model_core Model_minerals Proofs_core Proofs_minerals Proofs_rhs Proofs_flow.
+From PV Require Import Num NumR Model_core Model_minerals Proofs_core Proofs_minerals Proofs_rhs Proofs_flow Proofs_path.
 Import ListNotations.
 Open Scope R_scope.
 
@@ -40,6 +40,21 @@ Proof. exact solution_rescale. Qed.
 Theorem C05_rescaled_end_value : forall (y : nat -> R -> R) (b k : R), 0 < k ->
   forall i, z y k i (b / k) = y i b.
 Proof. exact rescale_end_value. Qed.
+
+(* capstone: for the texture ODE itself (vector field = the modelled eval_rhs with the velocity
+   gradient history L(t) and its strain-rate scale s(t)), y(k t) solves the problem for the
+   history k L(k t) -- whose scale is k s(k t) by homogeneity -- and ends in the same state *)
+Theorem C05_strain_path_not_rate :
+  forall (regime ph fb : Z) (n : nat) (ass : list Z) (frs Sd : list R) (p nn lam M : R)
+         (Lh : R -> list R) (sh : R -> R),
+  (forall t, length (Lh t) = 9%nat) ->
+  forall (y : nat -> R -> R) (a b k : R), 0 < k ->
+  (forall i t, a <= t <= b ->
+     is_derive (y i) t (f regime ph fb n ass frs Sd p nn lam M Lh sh t (fun j => y j t) i)) ->
+  (forall i t, a / k <= t <= b / k ->
+     is_derive (z y k i) t (f_scaled regime ph fb n ass frs Sd p nn lam M Lh sh k t (fun j => z y k j t) i))
+  /\ (forall i, z y k i (b / k) = y i b).
+Proof. exact strain_path_not_rate. Qed.
 
 Example C05_nonvacuous : length [1; 0; 0; 0; -1; 0; 0; 0; 0] = 9%nat /\ 1e-15 <> 0 /\ is_eigmax [1; 0; 0; 0; -1; 0; 0; 0; 0] 1.
 Proof. exact C05_nonvacuous_proof. Qed.
